@@ -152,9 +152,27 @@ class WithExt(Exception):
     extensions = {"code": "X"}
 
 
+class NoBool:
+    def __bool__(self):
+        raise ValueError("ambiguous truth value")
+
+    def __len__(self):
+        raise ValueError("ambiguous length")
+
+
+def with_attr(name, value, base=Exception):
+    """an ordinary exception that happens to carry an attribute the library looks at"""
+    e = base("with " + name)
+    setattr(e, name, value)
+    return e
+
+
 def exc_palette():
     from graphql import GraphQLError
-    return [Exception("e"), ValueError("v"), KeyError("k"), StopIteration(), StrRaises(), GraphQLError("g"),
+    odd = [with_attr("extensions", v) for v in (["jpg", "png"], "ext", ("a",), {"s"}, 42, NoBool(), [], 0, {1: 2}, {"k": object()})]
+    odd += [with_attr("extensions", ["x"], OSError), with_attr("path", "notalist"), with_attr("path", 5), with_attr("locations", "x"), with_attr("nodes", 1),
+            with_attr("message", 5), with_attr("positions", "p"), with_attr("source", 1), with_attr("original_error", 1), with_attr("args", ())]
+    return odd + [Exception("e"), ValueError("v"), KeyError("k"), StopIteration(), StrRaises(), GraphQLError("g"),
             GraphQLError("g2", extensions={"a": 1}), WithExt("w"), ZeroDivisionError(), AttributeError("a"),
             UnicodeDecodeError("utf-8", b"\xff", 0, 1, "bad"), OSError(5, "io"), AssertionError(), TypeError("t"),
             RecursionError("r"), MemoryError(), NotImplementedError(), LookupError(), type("Custom", (Exception,), {})("c")]
